@@ -97,7 +97,7 @@ var seedExpectations = []seedExpect{
 	{"C19-d", "C19", "lex.nestdelim", "blockComment"},
 	// completed from the seed matrix (full construct identities)
 	{"C01-b", "C08", "reset.complete", "lower.Lowerer/lowerFunction:Lowerer.isInsideLoop"},
-	{"C04-b", "C04", "handlewalk.ExpressionHandle.remapper", "msl/internal/codegen.adjustExprHandles/ExpressionKind:ExprMath.Arg3"},
+	{"C04-b", "C14", "handlewalk.ExpressionHandle.remapper", "msl/internal/codegen.adjustExprHandles/ExpressionKind:ExprMath.Arg3"},
 	{"C06-b", "C06", "evalsel.goop", "wgsl/internal/lower.Lowerer.tryFoldBinaryOp/BinaryOperator#2:BinaryModulo"},
 	{"C08-b", "C08", "scope.defafterinit", "wgsl/internal/parser.collectStmtDeps:locals[s.Name]"},
 	{"C11-b", "C11", "astwalk.child", "wgsl/internal/parser.collectStmtDeps/Stmt:IfStmt.Else"},
